@@ -279,6 +279,22 @@ def _check_live(case):
                     v = [Viol("argument-tier-changed-by-later-call", f"then {op2}: a tier object handed to the textgrid earlier was changed in place "
                                                                      f"from {c0} to {canon(obj)} (mutators work on the textgrid, not on the caller's tiers)")]
                     break
+        if not v:
+            # tier objects the textgrid no longer holds (renamed / replaced / removed ones the caller still has): editing them in place must
+            # not reach into the textgrid
+            held = {id(x) for x in tg.tiers}
+            snap = snap_tg(tg)
+            for obj, _c0 in pool:
+                if id(obj) in held:
+                    continue
+                if len(obj.entries):
+                    call(obj.deleteEntry, obj.entries[0])
+                call(obj.insertEntry, (1.25, 1.5, "edited") if obj.tierType == constants.INTERVAL_TIER else (1.25, "edited"), "merge", "silence")
+                n += 1
+                if snap_tg(tg) != snap:
+                    v = [Viol("textgrid-entangled-with-a-tier-it-no-longer-holds", f"then {op2}: editing a tier object that the textgrid had held before (and "
+                                                                                     f"gave up by rename / replace / remove) changed the textgrid: {snap[3]} -> {snap_tg(tg)[3]}")]
+                    break
         if v:
             for x in v:
                 x["msg"] = f"after {op1} on a live textgrid: " + x["msg"]
